@@ -13,7 +13,7 @@ THEOREMS = ["twin_closure_bin", "twin_closure_tern", "tcb_iff_path", "tct_iff_pa
             # Props/C11Provider.lean
             "provider_contract_bin", "provider_no_variant_panic", "view0_spec", "view1_spec", "viewNone_spec", "provider_disjoint",
             "deltaSpec_eq_closure_of_acyclic", "spec_after_merge", "trrel_merge_antireflexive_witness", "tern_delta_view1_loses_tuple",
-            "tern_delta_view2_loses_tuple", "tern_lenEstimate12_empty_panics"]
+            "tern_delta_view2_loses_tuple", "tern_lenEstimate12_total", "tern_lenEstimate12_empty"]
 TRUSTED = ["Lean 4.33.0 kernel", "axioms: propext, Classical.choice, Quot.sound only (audited per theorem)",
            "statements: Props/C11.lean (least model of the explicit-closure twin restricted to t = transitive closure, per key, of the inserted tuples) and "
            "Props/C11Provider.lean (binary provider model simulates the set-level contract under the engine's calling discipline)",
@@ -475,13 +475,7 @@ def known(c, twin, impl, model):
     bad = next((i for i, l in enumerate(impl) if l.startswith("panic") or l in BAD), None)
     st = stages(c, impl)
     f17 = False
-    if bad is not None:
-        runs = [i for i, o in enumerate(c.ops) if o.startswith("eng run")]
-        if impl[bad] != "panic attempt to divide by zero" or bad not in runs: return None
-        k = runs.index(bad)
-        inp = st[k][0]
-        if not f17_class(p, not eng.naive_model(twin, inp)[p["t"]]): return None
-        f17, st = True, st[:k]            # the runs before the panic must still be explained
+    if bad is not None: return None        # F24 (len_estimate dividing by zero) is repaired in the code: a panic is never a known finding
     tainted = f14_tainted(p)
     f7 = f14 = False
     for inp, dump in st:
@@ -678,16 +672,7 @@ def tri_known(ops, impl, model):
     rest = tri_judge(ops, impl, anti=True)          # what the anti-reflexive reading (F7) does not explain
     f17 = False
     pan = [b for b in rest if "panics" in b[3]]
-    if pan:
-        # F24: len_estimate of view [1,2] while the version has no key
-        j = pan[0][0]
-        t = ops[j].split()
-        if t[1] != "lenest12": return None
-        sp = TriSpec(kind, anti=True)
-        tri_replay(sp, ops[:j])
-        if sp.ver(t[3]): return None
-        f17 = True
-        rest = [b for b in rest if b not in pan]
+    if pan: return None              # F24 is repaired in the code: a panic is never a known finding
     f14 = bool(rest)
     if f14 and not (kind == "t11" and all(b[1] in ("delta", "td") and b[2] in F14_VIEWS for b in rest)): return None
     sp = TriSpec(kind)
